@@ -68,6 +68,18 @@ def c14b(F, R):
         if not mentions:
             continue
         inside = p in allowed or any(p.startswith(a + "::") for a in allowed)
+        if not inside and f.get("ret_ty") == "bool" and [t.lstrip("&") for t in (f.get("param_tys") or [])] == [REG] and "{closure" not in p:
+            # a pure predicate over one register is its extension: evaluated on all 32 registers (as C14.g does), it may name
+            # members as long as the set it accepts contains each permuted class whole or not at all
+            try:
+                got = {n_ for n_ in range(32) if _eval_reg_predicate(F, p, n_, tn, class_sets(F))}
+                T_, S_ = set(ref["classes"]["temporary"]), set(ref["classes"]["saved"])
+                if all(not (got & c_) or not (c_ - got) for c_ in (T_, S_)):
+                    for v in mentions:
+                        R.ok(f"{p}|{v}", detail="named inside a register predicate whose extension keeps both classes whole")
+                    continue
+            except Exception:
+                pass
         if inside:
             n_allowed += len(mentions)
             for v in mentions:
